@@ -2,25 +2,26 @@ import CklVerif.Lemmas.C20EvalCall
 
 /-! C20 (evaluator part) — induction step for `eval`, and the induction on the fuel. -/
 namespace Ckl
+attribute [local irreducible] ValsOK DictOK PairsOK
 set_option linter.unusedSectionVars false
 set_option linter.unusedVariables false
 
 variable {P : Pos → Prop} {ld : Loader} {fuel : Nat}
 
-theorem fin_POK {β : Type} (o : Out Unit) (ho : OutOK (EP P) (StOK P) o) (k : State → Out β)
-    (hk : ∀ s, StOK P s → OutOK (EP P) (StOK P) (k s)) :
-    OutOK (EP P) (StOK P) (match (generalizing := false) o with
+theorem fin_POK {β : Type} [VC β] (o : Out Unit) (ho : OutOK (EP P) P o) (k : State → Out β)
+    (hk : ∀ s, StOK P s → OutOK (EP P) P (k s)) :
+    OutOK (EP P) P (match (generalizing := false) o with
       | .ok _ s'' => k s''
       | .err v2 m2 p2 t2 s'' => .err v2 m2 p2 t2 s''
       | .fail f s'' => .fail f s'' : Out β) := by
   cases o with
-  | ok a s => exact hk s ho
+  | ok a s => exact hk s ho.2
   | err => exact ho
   | fail f s => exact ho
 
-theorem block_fin_POK (o : Out RVal) (ho : OutOK (EP P) (StOK P) o) (fin : State → Out Unit)
-    (hf : ∀ s, StOK P s → OutOK (EP P) (StOK P) (fin s)) (g : State → State) (hg : ∀ s, (g s).heap = s.heap) :
-    OutOK (EP P) (StOK P) (match (generalizing := false) o with
+theorem block_fin_POK (o : Out RVal) (ho : OutOK (EP P) P o) (fin : State → Out Unit)
+    (hf : ∀ s, StOK P s → OutOK (EP P) P (fin s)) (g : State → State) (hg : ∀ s, (g s).heap = s.heap ∧ (g s).frames = s.frames) :
+    OutOK (EP P) P (match (generalizing := false) o with
     | .ok v s' =>
       match fin (g s') with
       | .ok _ s'' => .ok v s''
@@ -44,16 +45,16 @@ theorem block_fin_POK (o : Out RVal) (ho : OutOK (EP P) (StOK P) o) (fin : State
     | .fail f s' => .fail f s' : Out RVal) := by
   cases o with
   | ok v s' =>
-    exact fin_POK (fin (g s')) (hf _ (StOK.of_heap_eq (hg _) ho)) (fun s'' => .ok v s'') (fun _ h => h)
+    exact fin_POK (fin (g s')) (hf _ (StOK.of_eq (hg _).1 (hg _).2 ho.2)) (fun s'' => .ok v s'') (fun _ h => ⟨ho.1, h⟩)
   | err v m p t s' =>
-    exact fin_POK (fin (g s')) (hf _ (StOK.of_heap_eq (hg _) ho.2)) (fun s'' => .err v m p t s'')
+    exact fin_POK (fin (g s')) (hf _ (StOK.of_eq (hg _).1 (hg _).2 ho.2)) (fun s'' => .err v m p t s'')
       (fun _ h => ⟨ho.1, h⟩)
   | fail f s' =>
     cases f with
     | host k =>
-      exact fin_POK (fin (g s')) (hf _ (StOK.of_heap_eq (hg _) ho)) (fun s'' => .fail (.host k) s'') (fun _ h => h)
+      exact fin_POK (fin (g s')) (hf _ (StOK.of_eq (hg _).1 (hg _).2 ho)) (fun s'' => .fail (.host k) s'') (fun _ h => h)
     | syn e =>
-      exact fin_POK (fin (g s')) (hf _ (StOK.of_heap_eq (hg _) ho)) (fun s'' => .fail (.syn e) s'') (fun _ h => h)
+      exact fin_POK (fin (g s')) (hf _ (StOK.of_eq (hg _).1 (hg _).2 ho)) (fun s'' => .fail (.syn e) s'') (fun _ h => h)
     | oof => exact ho
     | unsupported w => exact ho
 
@@ -65,9 +66,9 @@ theorem block_step (ih : PAll P ld fuel) : ∀ env es ce ch fin tl pos, NodeOK P
   unfold Ckl.eval
   refine PosOK.ofFun (fun s0 hs0 => ?_)
   dsimp only
-  have hb := (ih.evalBody env es (.bool true) hes).run (ghostEnter s0 pos) (StOK.of_heap_eq rfl hs0)
+  have hb := (ih.evalBody env es (.bool true) hes trivial).run (ghostEnter s0 pos) (StOK.of_eq' hs0 rfl rfl)
   have hf := fun s hs => (ih.evalFinally env fin hfin).run s hs
-  refine block_fin_POK _ ?_ (evalFinally ld fuel env fin) hf (fun s => ghostFin s pos) (fun _ => rfl)
+  refine block_fin_POK _ ?_ (evalFinally ld fuel env fin) hf (fun s => ghostFin s pos) (fun _ => ⟨rfl, rfl⟩)
   cases hr : evalBody ld fuel env es (.bool true) (ghostEnter s0 pos) with
   | err v msg p t s' =>
     rw [hr] at hb
@@ -84,18 +85,20 @@ theorem for_step (ih : PAll P ld fuel) :
   unfold Ckl.eval
   refine PosOK.ofFun (fun s0 hs0 => ?_)
   have hb := (ih.evalFor env ids e body what pos he hb hp).run s0 hs0
+  have hh := hs0.hiddenVars env ids
+  dsimp only
   cases hr : evalFor ld fuel env ids e body what pos s0 with
-  | ok a s => rw [hr] at hb; exact hb
+  | ok a s => rw [hr] at hb; exact ⟨hb.1, hb.2.restoreVars env hh⟩
   | err v m p t s' =>
     rw [hr] at hb
-    exact ⟨hb.1, StOK.of_heap_eq (foldl_heap (fun s x => s.remove env x) (fun _ _ => rfl) _ _) hb.2⟩
+    exact ⟨hb.1, (StOK.foldl hb.2 _ _ (fun s x _ hs => hs.remove env x)).restoreVars env hh⟩
   | fail f s => rw [hr] at hb; exact hb
 
 theorem lambda_step : ∀ env a b c d, NodeOK P (.lambda a b c d) → POK P (eval ld (fuel+1) env (.lambda a b c d)) := by
   intro env a b c d hn
   simp only [NodeOK] at hn
   unfold Ckl.eval
-  exact PosOK.ofFun (fun s0 hs0 => StOK.alloc hs0 ⟨hn.2.2, hn.2.1⟩)
+  exact PosOK.ofFun (fun s0 hs0 => ⟨trivial, StOK.alloc hs0 ⟨hn.2.2, hn.2.1⟩⟩)
 
 /-- one constructor of `eval` -/
 macro "eval_case " ih:ident ctx:ident hn:ident : tactic => `(tactic|
